@@ -179,3 +179,13 @@ func init() {
 		NonTrivial: func(fp string) bool { return true },
 	}
 }
+
+func init() {
+	metaTable["C14"] = propMeta{Level: "exploration", Assumptions: append(append([]string{}, commonAssumptions...),
+		"'indefinitely' is restated as bounded: every probe is delivered for 3 h (quick) / up to 48 h (thorough) of virtual time; no finite run decides an unbounded duration",
+		"the fault plan drops at most the first two request copies and responses to the first three copies of a transaction, so every transaction keeps a request and a response; data probes are never dropped"),
+		Rule: "real turn.Client <-> real turn.Server over the simulated network for 3 h (48 h for every 25th thorough case) of virtual time; 1-8 peers; traffic pattern in {continuous, bursts, idle 7 min, idle 40 min, idle 3 h, mixed}; server timeouts from 6 configurations compatible with the client's refresh cadence; 2 of 3 runs with loss/duplication/reordering of control transactions; at every probe instant one tagged datagram per direction and peer must arrive with the right source/attribution and AllocationCount must be 1; after Close it must be 0; " +
+			"non-trivial = distinct (pattern, peers, lossy, timeout configuration) runs",
+		NonTrivial: func(fp string) bool { return true },
+	}
+}
